@@ -110,7 +110,8 @@ def dd_model_conformance(chk, w, tier):
     by = {}
     for o in outs:
         key = json.dumps([o["ii"], o["cut"], o["type"], o["width"], o["lb"], o["root"]], sort_keys=True)
-        by.setdefault(key, []).append(json.dumps({"exact": o["exact"], "bv": o["bv"], "bev": o["bev"], "cs": sorted(o["cs"], key=json.dumps)}, sort_keys=True))
+        # an exact relaxed diagram is not drained by the solvers (nor by the engine): its cut-set is not part of the outcome
+        by.setdefault(key, []).append(json.dumps({"exact": o["exact"], "bv": o["bv"], "bev": o["bev"], "cs": [] if o["exact"] else sorted(o["cs"], key=json.dumps)}, sort_keys=True))
     keys = sorted(by)
     inputs = []
     for k in keys:
